@@ -35,7 +35,8 @@ import logging as _logging
 _logging.getLogger('slimta').addHandler(_logging.NullHandler())
 
 ASSUMPTIONS = [
-    'recipients of one envelope are pairwise distinct (the per-recipient result table is a dict keyed by address)',
+    'an address may occur several times in envelope.recipients; the result mapping is keyed by address and is read back at every position (the order of its keys is not compared: the queue only looks keys up)',
+    'the same address is either encodable at every occurrence or at none',
     'replies are paired with commands in order (that is property C10); the scripted server answers command k with the outcome of its stage',
     'after a dropped connection or a stall the scripted server stays dead/silent for the rest of the connection',
     'a reply line whose code is not [1-5]dd is a BadReply (slimta.smtp.io reply_line_pattern): the outcome "bad code" is a malformed reply',
@@ -315,12 +316,17 @@ class Patches(object):
 
 
 # ----------------------------------------------------------------- envelopes / results
+def addrs_of(msg):
+    """address id per position of envelope.recipients (default: all different)"""
+    return list(msg.get('addrs') or range(len(msg['rcpt_ok'])))
+
+
 def make_envelope(case, m):
     msg = case['msgs'][m]
     sender = ('s%d@example.com' % m) if msg.get('sender_ok', True) else ('sé%d@example.com' % m)
     rcpts = []
-    for i, ok in enumerate(msg['rcpt_ok']):
-        rcpts.append(('r%d_%d@example.com' % (m, i)) if ok else ('ré%d_%d@example.com' % (m, i)))
+    for a, ok in zip(addrs_of(msg), msg['rcpt_ok']):
+        rcpts.append(('r%d_%d@example.com' % (m, a)) if ok else ('ré%d_%d@example.com' % (m, a)))
     env = Envelope(sender, rcpts)
     body = b'test \x81 test\r\n' if msg.get('eightbit') else b'test test\r\n'
     env.parse(b'From: s@example.com\r\n\r\n' + body)
@@ -480,12 +486,12 @@ def model_input(case, conn_index=0):
     return [1 if case['proto'] == 'lmtp' else 0,
             [int(bool(cfg.get(x))) for x in ('tls_immediately', 'tls_required', 'creds', 'reuse')],
             CONN[conn], [list(map(int, case['exts'][0])), list(map(int, case['exts'][1]))],
-            [[int(bool(msg.get('sender_ok', True))), [int(bool(x)) for x in msg['rcpt_ok']], int(bool(msg.get('eightbit')))]
+            [[int(bool(msg.get('sender_ok', True))), [[a, int(bool(x))] for a, x in zip(addrs_of(msg), msg['rcpt_ok'])], int(bool(msg.get('eightbit')))]
              for msg in case['msgs']],
             entries]
 
 
-CLS = {0: 'ok', 1: 'perm', 2: 'trans'}
+CLS = {0: 'ok', 1: 'perm', 2: 'trans', 3: 'other:KeyError'}
 
 
 def decode_mres(o):
@@ -540,15 +546,28 @@ def oracle_smtp(ctx, case, impl):
     for m, msg in enumerate(case['msgs']):
         res = impl['results'][m]
         n = len(msg['rcpt_ok'])
+        addrs = addrs_of(msg)
+        dups = len(set(addrs)) < n
         finals = per_rcpt(res, n)
         has_badcode = any(v == BADCODE for v in script.values())
         bad_addr = not msg.get('sender_ok', True) or not all(msg['rcpt_ok'])
         for i, f in enumerate(finals):
             key = None; what = None
             if f == 'ok':
-                # success only if the downstream accepted this RCPT and the message
+                # success only if the downstream accepted this recipient (every RCPT given for its
+                # address; for LMTP the occurrence whose data reply counts) and the message
                 ro = out(K_RCPT, m, i)
                 eo = out(K_EOD, m, i if lmtp else 0)
+                own = [j for j in range(n) if addrs[j] == addrs[i]]
+                if len(own) > 1:
+                    if lmtp:
+                        acc = [j for j in own if out(K_RCPT, m, j) == R2]
+                        if acc:
+                            ro, eo = R2, out(K_EOD, m, acc[-1])
+                        else:
+                            ro = next((out(K_RCPT, m, j) for j in own if out(K_RCPT, m, j) != R3), R3)
+                    else:
+                        ro = next((out(K_RCPT, m, j) for j in own if out(K_RCPT, m, j) != R2), R2)
                 if ro != R2 or eo != R2 or out(K_MAIL, m) not in (R2, R3) or out(K_DATA, m) not in (R2, R3):
                     if (lmtp and ro == R3) or (R3 in (ro, eo) and ro in (R2, R3) and eo in (R2, R3)):
                         key = 'c11:3xx-at-rcpt-or-eod-counted-as-accepted'
@@ -571,7 +590,7 @@ def oracle_smtp(ctx, case, impl):
                 ro = out(K_RCPT, m, i)
                 clean = (all(v in (R2, R3, R4, R5, R500) for v in script.values()) and case.get('conn', 'ok') == 'ok'
                          and all(parse_skey(k)[0] in (K_RCPT,) and parse_skey(k)[1] == m for k in script) and not msg.get('eightbit'))
-                if clean and ro in (R4, R5, R500):
+                if clean and ro in (R4, R5, R500) and not dups:
                     want = 'perm' if ro in (R5, R500) else 'trans'
                     if f != want:
                         key = 'c11:all-rcpt-rejected-mixed-class' if all(
@@ -580,6 +599,32 @@ def oracle_smtp(ctx, case, impl):
             if key:
                 _fail(ctx, key, dict(kind='smtp', case=case), what)
                 return
+        # the report for an address is determined by the replies to ITS OWN occurrences in
+        # envelope.recipients (and the message reply), never by a reply given to another address
+        if (res[0] == 'map' and case.get('conn', 'ok') == 'ok' and not msg.get('eightbit') and not bad_addr
+                and all(v in REPLY_CLASS for v in script.values())
+                and all(parse_skey(k)[0] in (K_RCPT, K_EOD) and parse_skey(k)[1] == m for k in script)):
+            for i in range(n):
+                own = [j for j in range(n) if addrs[j] == addrs[i]]
+                rej = [j for j in own if out(K_RCPT, m, j) in (R4, R5, R500)]
+                acc = [j for j in own if out(K_RCPT, m, j) == R2]
+                cls_of = lambda o: 'perm' if o in (R5, R500) else 'trans'
+                if lmtp and acc:
+                    eo = out(K_EOD, m, acc[-1])
+                    want = cls_of(eo) if eo in (R4, R5, R500) else 'ok'
+                    why = 'data reply %s to its last accepted RCPT (position %d)' % (ONAMES[eo], acc[-1])
+                elif rej:
+                    want = cls_of(out(K_RCPT, m, rej[-1]))
+                    why = 'RCPT reply %s at position %d' % (ONAMES[out(K_RCPT, m, rej[-1])], rej[-1])
+                else:
+                    want = 'ok'
+                    why = 'no RCPT for this address was rejected'
+                if finals[i] != want:
+                    _fail(ctx, 'c11:result-from-another-recipients-reply' if dups else 'c11:smtp-misclassified',
+                          dict(kind='smtp', case=case),
+                          'message %d, recipients (address ids) %r: address %d at position %d is reported %s; its own replies say %s (%s)' % (
+                              m, addrs, addrs[i], i, finals[i], want, why))
+                    return
         # single-fault classification: exactly one deviating stage, on the path of this message
         if len(script) == 1 and case.get('conn', 'ok') == 'ok' and not msg.get('eightbit') and not bad_addr and res[0] != 'queued':
             (k, o), = script.items()
@@ -750,6 +795,33 @@ def gen_smtp_cases(quick):
                 for o in ALL_OUT:
                     if o != STALL:
                         yield 'reuse', with_script(b, {skey(K_IDLE, 0): o})
+            # the same address several times in envelope.recipients
+            for pat in ([0, 0, 1], [0, 1, 0], [1, 0, 0], [0, 0, 0], [0, 1, 1], [0, 1, 0, 1], [0, 0, 1, 1], [0, 1, 1, 0]):
+                n = len(pat)
+                b = base_case(proto, pl, [n])
+                b['msgs'][0]['addrs'] = list(pat)
+                for rv in rcpt_vectors(0, n):
+                    yield 'dup', with_script(b, rv)
+                    if lmtp:
+                        accepted = [i for i in range(n) if skey(K_RCPT, 0, i) not in rv]
+                        if n == 3:
+                            evs = itertools.product((R2, R4, R5), repeat=len(accepted))
+                        else:
+                            evs = [tuple(R5 if j == q else R2 for j in range(len(accepted))) for q in range(len(accepted))]
+                        for ev in evs:
+                            s2 = dict(rv)
+                            s2.update({skey(K_EOD, 0, i): o for i, o in zip(accepted, ev) if o != R2})
+                            if s2 != rv:
+                                yield 'dup', with_script(b, s2)
+                    else:
+                        yield 'dup', with_script(b, dict(rv, **{skey(K_EOD, 0, 0): R5}))
+                for i in range(n):
+                    yield 'dup', with_script(b, {skey(K_RCPT, 0, i): R3})
+                    yield 'dup', with_script(b, {skey(K_RCPT, 0, i): DISCONNECT})
+            b = base_case(proto, pl, [2, 3], reuse=True)
+            b['msgs'][1]['addrs'] = [0, 0, 1]
+            for rv in rcpt_vectors(1, 3):
+                yield 'dup', with_script(b, dict(rv, **{skey(K_RCPT, 0, 0): R5}))
             # hang-up after error replies earlier in the session
             for o in (MALFORMED, BADCODE, DISCONNECT, STALL):
                 hang1 = [(K_MAIL, 0), (K_RCPT, 1), (K_DATA, 0), (K_EOD, 1 if lmtp else 0), (K_RSET, 0)]
